@@ -22,7 +22,7 @@ LEVEL = "exploration"
 TECHNIQUE = "model-based stateful histories (Hypothesis, data-driven) vs naive scan of a reference list"
 RULE = (
     "2..7 devices drawn from 19 device types (Climate with and without nested ClimateMode), each constructor group-address parameter "
-    "bound to None, one or several (passive) addresses from a pool of 4 group + 2 internal addresses; histories of up to 24 "
+    "bound to None, one address, an active plus passive addresses, or passive addresses only ([None, ga, ...]) from a pool of 4 group + 2 internal addresses; histories of up to 24 "
     "add / remove steps incl. duplicate add, re-add and remove of unregistered devices, registry started or not; devices may carry a set-up fault "
     "(sync_state=' ' that the StateUpdater cannot parse, or register_state_updater / async_start_tasks patched to raise always / once) so that "
     "async_add raises half-way; 'mid' steps let a device add another device or remove a later-registered one from inside its process() during the dispatch; after every step "
@@ -37,7 +37,7 @@ LEVEL_TEXT = (
 )
 LEVEL_NOTE = "An add that fails inside the device's own set-up may leave the device registered or not (outcome read from `device in registry`), but iteration, len, membership, callbacks, lookup and dispatch must agree on it and a later remove must work. Devices' own process() is replaced by a recorder (dispatch only); has_group_address of the device classes is trusted as the definition of 'uses the address'."
 ASSUMPTIONS = [
-    "'uses its group address' = Device.has_group_address(address) of the registered device",
+    "'uses its group address' = Device.has_group_address(address) of the registered device, cross-checked against the address lists the check itself configured (active, state and passive addresses all count; Device.group_addresses() is not consulted)",
     "the error for duplicate add / unknown remove is ValueError (Devices.async_add / async_remove)",
     "telegrams addressed to an individual address reach no device",
     "registry changes made from inside a device's process() / callback while a telegram is being dispatched are generated in two forms: adding a new (fault-free) device "
@@ -103,7 +103,7 @@ def build_device(xknx, idx: int, spec):
     for name, b in zip(names, bindings):
         if b is None:
             continue
-        val = POOL[b] if isinstance(b, int) else [POOL[i] for i in b]
+        val = POOL[b] if isinstance(b, int) else [POOL[i] if i >= 0 else None for i in b]  # -1: no active address, passive only
         if name.startswith("mode:"):
             mode_kw[name[5:]] = val
         else:
@@ -132,7 +132,20 @@ _binding = st.one_of(
     st.integers(0, len(POOL) - 1),
     st.integers(0, len(POOL) - 1),
     st.lists(st.integers(0, len(POOL) - 1), min_size=2, max_size=3),
+    st.lists(st.integers(0, len(POOL) - 1), min_size=1, max_size=2).map(lambda l: [-1, *l]),  # [None, ga, ...]: passive addresses only
 )
+
+
+def configured_addresses(spec) -> set[str]:
+    """The pool addresses the check itself bound to the device (independent of the device's own bookkeeping)."""
+    tname, bindings = spec[0], spec[1]
+    names, _ = TYPES[tname]
+    out: set[str] = set()
+    for name, b in zip(names, bindings):
+        if b is None or (tname == "DateDevice" and name == "group_address_state"):  # localtime devices ignore the state address
+            continue
+        out.update(POOL[i] for i in ([b] if isinstance(b, int) else b) if i >= 0)
+    return out
 
 
 @st.composite
@@ -201,6 +214,7 @@ def oracle(ctx, h) -> None:
         calls: list[int] = []
         reg = xknx.devices
         model: list[int] = []
+        configured = [configured_addresses(sp) for sp in h["devices"]]
         state: dict = {"mid": None}
 
         def recorder(i: int):
@@ -316,6 +330,12 @@ def oracle(ctx, h) -> None:
                     # registered before and after must still get it exactly once, in registration order
                     skip = m["target"] if fired else None
                     exp = [] if isinstance(dst, IndividualAddress) else [j for j in model if j != skip and devices[j].has_group_address(dst)]
+                    exp_cfg = [] if isinstance(dst, IndividualAddress) else [j for j in model if j != skip and label in configured[j]]
+                    if exp != exp_cfg:
+                        ctx.fail("C37:has_group_address-disagrees-with-configured-addresses", h, f"step {step}: address {label}: has_group_address scan {exp}, devices configured with it {exp_cfg}")
+                        return
+                    if any(isinstance(b, list) and b and b[0] < 0 and label in [POOL[k] for k in b[1:]] for j in exp for b in h["devices"][j][1]):
+                        info["cls"].add("receiver-with-passive-only-address")
                     got = [c for c in calls if c != skip]
                     if fired:
                         info["cls"].add("registry-changed-during-dispatch:" + m["kind"][4:] + (":same-address" if devices[skip].has_group_address(dst) else ":other-address"))
